@@ -2,7 +2,7 @@
 // self-consistent index of the samples.
 //
 // Exhaustive enumeration of small profiles (all stack shapes over a 7-symbol
-// frame alphabet up to a depth bound, all inline groupings; one, two and three
+// frame alphabet up to a depth bound, all inline groupings; zero to three
 // samples; signed value vectors on two sample types) times every granularity
 // (granularity x noinlines x showcolumns) times the selected sample value.
 // Each case is observed twice: through report.(*Report).Stacks() on the
